@@ -690,11 +690,12 @@ class Gen:
         self.modelled = False
         self.feats.add("do-while")
         i2 = ind + "  "
-        bl, _ = self.block(live2, r.randint(1, 2), i2, depth + 1)
+        bl, ba = self.block(live2, r.randint(1, 2), i2, depth + 1)
         jl, _ = self.jump(live2, i2, r.choice(["exit", "cycle"]))
+        # the AST of an unmodelled routine is only used to classify its WHERE constructs: keep the body
         if r.random() < 0.6:
-            return [f"{ind}{v} = 0", f"{ind}do while ({v} < {n})", f"{i2}{v} = {v} + 1"] + jl + bl + [f"{ind}end do"], ["skip"]
-        return [f"{ind}{v} = 0", f"{ind}do", f"{i2}{v} = {v} + 1", f"{i2}if ({v} > {n}) exit"] + jl + bl + [f"{ind}end do"], ["skip"]
+            return [f"{ind}{v} = 0", f"{ind}do while ({v} < {n})", f"{i2}{v} = {v} + 1"] + jl + bl + [f"{ind}end do"], ba
+        return [f"{ind}{v} = 0", f"{ind}do", f"{i2}{v} = {v} + 1", f"{i2}if ({v} > {n}) exit"] + jl + bl + [f"{ind}end do"], ba
 
     def unsupported(self, live, ind, depth):
         r = self.r
